@@ -84,3 +84,8 @@ add("C18", "exploration", "property-based testing (proptest): base facts + gener
     "Search over pairs of ontologies that differ by 0-4 edits of 15 kinds; all Comparison / HpoTermDelta / AnnotationDelta accessors compared with the difference of the fact sets; swapped arguments, self comparison and round trip.",
     "Replacement means the stored replacement id; <=12 terms quick / 40 thorough.",
     "DESIGN.md section 4, C18")
+
+add("C17", "exploration", "property-based testing (proptest): generated distance tables / content-based distances x 4 linkage methods vs a dendrogram validity predicate simulated along the library's merges",
+    "Search over input counts, distance tables (distinct and tie-rich) and all four methods; the dendrogram is validated merge by merge (live operands, exact current distance, no closer pair, method-specific update, sizes, leaf order, iterator agreement, callback pairs) so that ties never cause a false alarm.",
+    "Distances finite and symmetric; n <= 12 quick / 40 thorough over a flat 96-term ontology.",
+    "DESIGN.md section 4, C17")
